@@ -63,7 +63,7 @@ func genCluster(t *rapid.T, p *plan) {
 		case k < 15:
 			o.Kind = rapid.SampledFrom([]string{"isolate", "isolate", "isolate-leader"}).Draw(t, l+".ik")
 		default:
-			o.Kind = "heal"
+			o.Kind = rapid.SampledFrom([]string{"heal", "heal", "partition", "partition-leader"}).Draw(t, l+".hk")
 		}
 		if o.Kind == "createdb" && rapid.IntRange(0, 3).Draw(t, l+".rp") == 0 {
 			o.Kind = "createrp"
@@ -88,6 +88,7 @@ type mcluster struct {
 	nodes    []*mnode
 	mu       sync.Mutex
 	isolated map[string]bool // addresses that refuse incoming connections
+	cut      map[string]bool // raft addresses whose raft links to and from everybody else are cut
 	hc       *http.Client
 }
 
@@ -144,7 +145,20 @@ func (c *mcluster) get(url string) ([]byte, int, error) {
 
 func execCluster(run *core.Run, p *plan) {
 	nw := simnet.New()
-	c := &mcluster{run: run, nw: nw, isolated: map[string]bool{}}
+	c := &mcluster{run: run, nw: nw, isolated: map[string]bool{}, cut: map[string]bool{}}
+	verifhook.SetFault(func(ev string, args ...interface{}) error {
+		if ev != "meta.raft.dial" || len(args) < 2 {
+			return nil
+		}
+		from, _ := args[0].(string)
+		to, _ := args[1].(string)
+		c.mu.Lock()
+		defer c.mu.Unlock()
+		if c.cut[from] || c.cut[to] {
+			return fmt.Errorf("dial tcp %s: connect: network is unreachable", to)
+		}
+		return nil
+	})
 	nw.PolicyFor = func(addr string, n int) simnet.Policy {
 		c.mu.Lock()
 		defer c.mu.Unlock()
@@ -164,6 +178,7 @@ func execCluster(run *core.Run, p *plan) {
 		time.Sleep(5 * time.Second)
 		verifhook.SetListen(nil)
 		verifhook.SetDial(nil)
+		verifhook.SetFault(nil)
 	}()
 	c.hc = &http.Client{Transport: &http.Transport{
 		Dial:              func(network, addr string) (net.Conn, error) { return nw.Dial(addr, 5*time.Second) },
@@ -234,21 +249,35 @@ func execCluster(run *core.Run, p *plan) {
 	exists := map[string]string{} // name -> "yes" | "no" | "maybe"
 	users := map[string]string{}
 	rps := map[string]bool{} // db.rp acknowledged (checked only while the database still exists)
+	// tainted: names touched by a command whose outcome never became known
+	// while the run lasted (it may take effect at any later time)
+	tainted := map[string]bool{}
+	// A command may legitimately not return while a fault lasts (the client
+	// waits for the change to reach the meta node it polls, which may be cut
+	// off): it is then left running, its outcome unknown, and must return once
+	// faults have stopped.
+	type pendingCall struct {
+		what string
+		done chan error
+	}
+	var outstanding []pendingCall
+	errStillRunning := fmt.Errorf("still running")
 	call := func(what string, f func() error) (error, bool) {
 		done := make(chan error, 1)
 		go func() { done <- f() }()
 		select {
 		case err := <-done:
 			return err, true
-		case <-time.After(10 * time.Minute):
-			run.Fail("command-never-returns", "", "%s did not return within 10 simulated minutes", what)
-			return nil, false
+		case <-time.After(2 * time.Minute):
+			outstanding = append(outstanding, pendingCall{what, done})
+			run.Probe("command-outlasts-fault")
+			return errStillRunning, true
 		}
 	}
 	down := func() int {
 		k := 0
 		for _, n := range c.nodes {
-			if !n.up || c.isolated[n.http] {
+			if !n.up || c.isolated[n.http] || c.cut[n.raft] {
 				k++
 			}
 		}
@@ -261,7 +290,7 @@ func execCluster(run *core.Run, p *plan) {
 		core.Progress()
 		run.Op(o.Kind)
 		n := c.nodes[o.Node]
-		if o.Kind == "stop-leader" || o.Kind == "isolate-leader" {
+		if o.Kind == "stop-leader" || o.Kind == "isolate-leader" || o.Kind == "partition-leader" {
 			// the node the others currently follow
 			for _, m := range c.nodes {
 				if !m.up {
@@ -309,6 +338,9 @@ func execCluster(run *core.Run, p *plan) {
 				return
 			}
 			run.Logf("op%d CreateDatabase(%s) with %d nodes unreachable -> %v", i, name, down(), err)
+			if err == errStillRunning {
+				tainted[name] = true
+			}
 			if err == nil {
 				exists[name] = "yes"
 				run.Probe("change-acknowledged")
@@ -325,6 +357,9 @@ func execCluster(run *core.Run, p *plan) {
 				return
 			}
 			run.Logf("op%d DropDatabase(%s) -> %v", i, name, err)
+			if err == errStillRunning {
+				tainted[name] = true
+			}
 			// its retention policies go with it (also when the outcome is unknown)
 			for key := range rps {
 				if strings.HasPrefix(key, name+".") {
@@ -373,10 +408,21 @@ func execCluster(run *core.Run, p *plan) {
 			c.mu.Unlock()
 			run.Fault("meta-node-unreachable")
 			run.Logf("op%d meta node %d refuses incoming connections", i, n.id)
+		case "partition":
+			// the node's raft links are cut in both directions (its HTTP
+			// port stays reachable: a client can still talk to a leader
+			// that has lost its followers)
+			c.mu.Lock()
+			c.cut[n.raft] = true
+			c.mu.Unlock()
+			k := nw.ResetWhere(func(remote string) bool { return strings.HasSuffix(remote, ":8089") })
+			run.Fault("meta-node-partitioned")
+			run.Logf("op%d raft links of meta node %d cut (%d connections reset)", i, n.id, k)
 		case "heal":
 			c.mu.Lock()
 			delete(c.isolated, n.http)
 			delete(c.isolated, n.raft)
+			delete(c.cut, n.raft)
 			c.mu.Unlock()
 		}
 	}
@@ -386,6 +432,7 @@ func execCluster(run *core.Run, p *plan) {
 	// faults stop
 	c.mu.Lock()
 	c.isolated = map[string]bool{}
+	c.cut = map[string]bool{}
 	c.mu.Unlock()
 	for _, n := range c.nodes {
 		if !n.up {
@@ -397,6 +444,14 @@ func execCluster(run *core.Run, p *plan) {
 		}
 	}
 	time.Sleep(30 * time.Second)
+	for _, pc := range outstanding {
+		select {
+		case <-pc.done:
+		case <-time.After(5 * time.Minute):
+			run.Fail("command-never-returns-after-heal", "", "%s was issued during a fault and has still not returned 5 simulated minutes after every node is up and connected again", pc.what)
+			return
+		}
+	}
 	// bounded liveness: a new change commits
 	err, ok := call("CreateDatabase(final)", func() error { _, err := client.CreateDatabase("final"); return err })
 	if !ok {
@@ -431,6 +486,9 @@ func execCluster(run *core.Run, p *plan) {
 		}
 		sort.Strings(names)
 		for _, name := range names {
+			if tainted[name] {
+				continue
+			}
 			switch exists[name] {
 			case "yes":
 				if !have[name] {
@@ -446,7 +504,7 @@ func execCluster(run *core.Run, p *plan) {
 		}
 		for key := range rps {
 			parts := strings.SplitN(key, ".", 2)
-			if exists[parts[0]] != "yes" {
+			if exists[parts[0]] != "yes" || tainted[parts[0]] {
 				continue
 			}
 			found := false
@@ -485,6 +543,6 @@ func execCluster(run *core.Run, p *plan) {
 		}
 	}
 	run.Probe("cluster-converged")
-	run.NonTrivial = run.Faults["meta-node-stopped"]+run.Faults["meta-node-unreachable"] > 0
+	run.NonTrivial = run.Faults["meta-node-stopped"]+run.Faults["meta-node-unreachable"]+run.Faults["meta-node-partitioned"] > 0
 	run.Digest = fmt.Sprintf("cluster/%d", len(p.Cluster))
 }
